@@ -27,8 +27,10 @@ import (
 
 func init() {
 	register(&Property{
-		ID:  "C17",
-		Gen: genC17,
+		ID:    "C17",
+		Files: []string{"network/simpleHTTP.go", "monadIO.go"},
+		Funcs: []string{"SimpleAPIDef", "APIMake", "decodeResponseBody", "JSONBody", "GeneralMultipartSerializer", "NewSimpleAPI"},
+		Gen:   genC17,
 		Rule: "API definitions drawn from the scenario tape: constructor in {Get, Delete, Post/Put/Patch JSON, Post/Put/Patch multipart, generic APIMakeDoNewRequest* with any method} x relative template with 0..4 placeholders x PathParam (missing, extra, multiple keys, printable values) " +
 			"x body x DefaultHeader x fault in {none, serializer error, transport error, torn body, empty body, malformed JSON, deserializer returning (nil, err), missing multipart file}; the returned MonadIO is evaluated 0..3 times via Eval or Subscribe on a handler; " +
 			"a reference request builder gives method/URL/header/body; recorded requests == evaluations; failures surface as Err, never as a panic; non-trivial = >=1 evaluation with >=1 placeholder or an injected fault; distinct = distinct (definition, params, fault, evaluations)",
@@ -256,6 +258,11 @@ func (sc *c17Scenario) Run(s *simrt.Sim) {
 	tr := &c17Transport{sc: sc, fault: sc.Fault, torn: sc.TornAt}
 	sh := network.NewSimpleHTTPWithClientAndInterceptors(&http.Client{Transport: tr})
 	api := network.NewSimpleAPIWithSimpleHTTP(c17Base, sh)
+	if sc.TornAt%3 == 0 {
+		// the plain constructor; its SimpleHTTP gets the stubbed client afterwards
+		api = network.NewSimpleAPI(c17Base)
+		api.GetSimpleHTTP().SetHTTPClient(&http.Client{Transport: tr})
+	}
 	if sc.Header != nil {
 		api.DefaultHeader = http.Header{}
 		for k, v := range sc.Header {
